@@ -164,7 +164,7 @@ def main():
     specs = os.environ.get('VERIF_SPECS')
     BASE_VC = ['error', 'constants', 'utils', 'types']
     BASE_SPEC = ['verif_extern', 'verif_spec', 'verif_types', 'verif_prelude', 'spec_poly1305', 'spec_aead', 'spec_curve',
-                 'spec_hash', 'spec_cores']
+                 'spec_hash', 'spec_cores', 'spec_blake2b', 'proof_blake2b']
     evidence_path = os.path.join(EVID, prop + '.json')
     # stale replay files of this property
     if os.path.isdir(REPLAY_OUT):
